@@ -10,6 +10,7 @@ import (
 	"encoding/json"
 	"flag"
 	"fmt"
+	"golang.org/x/tools/go/ssa"
 	"os"
 	"path/filepath"
 	"sort"
@@ -225,6 +226,7 @@ func runAll(repo, verif string, timeoutS int, only func(*Obligation) bool, keepS
 		}
 		res.fcs = append(res.fcs, fc)
 	}
+	propagateTags(w, res.fcs)
 	// contracts that name functions which do not exist: fail closed
 	for k, c := range w.cs.Funcs {
 		if c.Trusted || strings.HasPrefix(k, "iface:") || strings.HasPrefix(k, "dyn:") {
@@ -492,7 +494,7 @@ func cmdCheck(args []string) {
 				"file": o.Pos.Filename, "line": o.Pos.Line, "source": srcLine(o.Pos.Filename, o.Pos.Line),
 				"solver_status": o.Status, "solver": o.Solver, "solver_output": o.Output,
 				"failing_input": nil,
-				"note": "obligation was discharged on the unchanged tree (baseline) and is not discharged now; no concrete failing input was derived",
+				"note":          "obligation was discharged on the unchanged tree (baseline) and is not discharged now; no concrete failing input was derived",
 			}
 			if g.isNew {
 				rec["note"] = "obligation generated from source text that is not in the baseline (changed code) and it does not discharge; no concrete failing input was derived"
@@ -618,4 +620,118 @@ func assumptionsFor(prop string, w *World) []string {
 		out = append(out, "client code does not assign to the package's exported table variables")
 	}
 	return out
+}
+
+// propagateTags: an obligation generated from an untagged clause (helper postconditions, loop invariants, call-site
+// preconditions) supports every property that the function or one of its transitive callers carries a tagged clause for.
+// Without this a change that breaks a helper fact would only ever show up under C02.
+func propagateTags(w *World, fcs []*FnCtx) {
+	own := map[string]map[string]bool{}
+	addTags := func(key string, tags []string) {
+		if own[key] == nil {
+			own[key] = map[string]bool{}
+		}
+		for _, t := range tags {
+			own[key][t] = true
+		}
+	}
+	for key, c := range w.cs.Funcs {
+		for _, cl := range c.Requires {
+			addTags(key, cl.Tags)
+		}
+		for _, cl := range c.Ensures {
+			addTags(key, cl.Tags)
+		}
+		for _, lc := range c.Loops {
+			for _, cl := range lc.Invariants {
+				addTags(key, cl.Tags)
+			}
+		}
+	}
+	// callers: static callees inside the verified packages
+	callers := map[string]map[string]bool{}
+	for key, fn := range w.fnByKey {
+		for _, b := range fn.Blocks {
+			for _, in := range b.Instrs {
+				var callee *ssa.Function
+				switch x := in.(type) {
+				case ssa.CallInstruction:
+					callee = x.Common().StaticCallee()
+				case *ssa.MakeClosure:
+					callee, _ = x.Fn.(*ssa.Function)
+				}
+				if callee == nil {
+					continue
+				}
+				ck := shortFuncKey(callee)
+				if w.fnByKey[ck] != callee {
+					continue
+				}
+				if callers[ck] == nil {
+					callers[ck] = map[string]bool{}
+				}
+				callers[ck][key] = true
+			}
+		}
+	}
+	memo := map[string]map[string]bool{}
+	var support func(key string, seen map[string]bool) map[string]bool
+	support = func(key string, seen map[string]bool) map[string]bool {
+		if m, ok := memo[key]; ok {
+			return m
+		}
+		out := map[string]bool{}
+		if seen[key] {
+			return out
+		}
+		seen[key] = true
+		for t := range own[key] {
+			out[t] = true
+		}
+		for c := range callers[key] {
+			for t := range support(c, seen) {
+				out[t] = true
+			}
+		}
+		delete(seen, key)
+		memo[key] = out
+		return out
+	}
+	for _, fc := range fcs {
+		sup := support(fc.key, map[string]bool{})
+		var supList []string
+		for t := range sup {
+			supList = append(supList, t)
+		}
+		sort.Strings(supList)
+		for _, o := range fc.obls {
+			switch o.Kind {
+			case "post", "pre", "inv-init", "inv-pres", "global":
+				explicit := false
+				for _, t := range o.Tags {
+					if t != "C02" {
+						explicit = true
+					}
+				}
+				if explicit && o.Kind != "pre" {
+					continue
+				}
+				have := map[string]bool{}
+				for _, t := range o.Tags {
+					have[t] = true
+				}
+				tags := append([]string{}, o.Tags...)
+				if !have["C02"] {
+					tags = append(tags, "C02")
+					have["C02"] = true
+				}
+				for _, t := range supList {
+					if !have[t] {
+						tags = append(tags, t)
+					}
+				}
+				o.Tags = tags
+			}
+		}
+	}
 }
